@@ -97,6 +97,7 @@ def run(name, pid, tier="quick", worktree=False):
     print(name, pid, tier, "rc", c.returncode, sorted(set(viol))[:6])
     if c.returncode == 2:
         print(c.stdout[-1500:])
+        print(c.stderr[-3000:])
     return c.returncode
 
 
